@@ -5,11 +5,17 @@
 (*   [ev |-> "reset", case |-> n]                                           *)
 (*   [ev |-> "step", case |-> n, op |-> <op record>, ret |-> STRING,        *)
 (*    reg |-> Seq(id), ver |-> Seq([id,v]),            in-memory registry   *)
+(*    based |-> Seq([id,on])      basedOn of the custom styles in it         *)
 (*    mrefs |-> Seq(id), mnums |-> Seq(Int), mnotes |-> Seq([k,id]),        *)
 (*    nsdt |-> Int,                                    in-memory body       *)
 (*    saved |-> BOOLEAN,                                                     *)
-(*    pkg |-> [ok, hasStyles, styles, sver, refs, numrefs, nums, abss,      *)
+(*    pkg |-> [ok, hasStyles, styles, sver, sbased, refs, numrefs, nums, abss, *)
 (*             noterefs, notes]]      the package written by this step      *)
+(* A behaviour is executed in several variants (saving as generated, saving  *)
+(* after every step, and "blind": without any read access to the document    *)
+(* between the operations - the in-memory fields of a blind step are those   *)
+(* observed at the same step of the first variant). With "Switch" the         *)
+(* in-memory fields describe the document that is current after the step.   *)
 (* The judge never blocks: deviations become witnesses and the spec state   *)
 (* is resynchronised on the observed one.                                    *)
 (* Signatures starting with "C13" are property witnesses; signatures         *)
@@ -26,7 +32,7 @@ tvars == <<l, cur, wit>>
 AddWit(w, sigs, c) == w \cup {[sig |-> s, case |-> c] : s \in {x \in sigs : ~\E r \in w : r.sig = x}}
 
 \* the observed package in the form Viol_C13 expects
-Obs(p) == [styles |-> SeqSet(p.styles), sver |-> SeqSet(p.sver), refs |-> SeqSet(p.refs),
+Obs(p) == [styles |-> SeqSet(p.styles), sver |-> SeqSet(p.sver), sbased |-> SeqSet(p.sbased), refs |-> SeqSet(p.refs),
            numrefs |-> SeqSet(p.numrefs), nums |-> SeqSet(p.nums), abss |-> SeqSet(p.abss),
            noterefs |-> SeqSet(p.noterefs), notes |-> SeqSet(p.notes)]
 
@@ -42,8 +48,10 @@ Judge(e) ==
             ELSE {<<"C13">> \o v : v \in Viol_C13(cur, Obs(e.pkg))})
       \* ---- binding notes (no verdict) ----
       \cup (IF e.ret # "panic" /\ e.ret # Ret(cur, e.op) THEN {<<"M13", name, "ret">>} ELSE {})
-      \cup (IF e.ret # "panic" /\ name \in StyleApi /\ (SeqSet(e.reg) # exp.reg \/ SeqSet(e.ver) # exp.ver)
+      \cup (IF e.ret # "panic" /\ name \in StyleApi \cup {"Switch", "Look"} /\ (SeqSet(e.reg) # exp.reg \/ SeqSet(e.ver) # exp.ver)
             THEN {<<"M13", name, "registry">>} ELSE {})
+      \cup (IF e.ret # "panic" /\ name \in StyleApi /\ ~(exp.based \subseteq SeqSet(e.based))
+            THEN {<<"M13", name, "based">>} ELSE {})
       \cup (IF e.ret # "panic" /\ name \notin Origins /\ newIds # Emits(cur, e.op) \ RefIds(cur)
             THEN {<<"M13", name, "emits">>} ELSE {})
 
